@@ -112,8 +112,10 @@ CHECKS["C03"] = NS(
     LEVEL_NOTE="trusts float64 reference; amax/amin are exact so locality is checked bit-for-bit; qmax is the divisor documented by each entry point (127 for the weight optimizer, finfo/iinfo max for absmax_scale)",
     TECHNIQUE=PBT + "float64 bounds and bitwise metamorphic relation (locality under perturbation of other rows/groups)",
     RULE=(
-        "Hypothesis: row-class tensor (as C02) x qtype (6) x entry point x axis x group size x target group x perturbation "
-        "kind. Non-trivial: per-axis/grouped case with >= 2 groups whose absmax differ by > 2x and a perturbation that "
+        "Hypothesis: row-class tensor (as C02, incl. memory layouts) x qtype (6) x entry point (quantize_weight, the optimizers, absmax_scale, "
+        "the input scale a QLinear gets from a real Calibration context) x axis x group size x target group x perturbation kind (applied to a "
+        "copy or, every third case, in place to the same tensor object); order: the same cases after a history of unrelated library "
+        "calls in a forked child. Non-trivial: per-axis/grouped case with >= 2 groups whose absmax differ by > 2x and a perturbation that "
         "really changes another group. Distinct by (dtype, qtype, entry, axis, shape, group size, perturbation, class vector)."
     ),
     ASSUMPTIONS=[
@@ -252,9 +254,10 @@ CHECKS["C08"] = NS(
     LEVEL_NOTE="float64 reference through torch's own functionals (Conv2d._conv_forward of the base class for padding modes); quanto's quantize_activation is used as the projection of inputs (checked by C01)",
     TECHNIQUE=PBT + "recursive generation of module trees with a structural snapshot-diff oracle; differential oracle against the float functional",
     RULE=(
-        "structure: recursive tree strategy (<= 8 leaves) x 6 weight qtypes (object or name) x 4 activation settings x filter (none or a random "
+        "structure: recursive tree strategy (<= 8 leaves, incl. user subclasses of Linear and pairs of modules sharing one Parameter) x 6 weight qtypes (object or name) x 4 activation settings x filter (none or a random "
         "subset of the tree's modules) x dtype. function: module kind x hyper-parameters x dtype x weight qtype x activation qtype x input kind "
-        "(float, quantized with the same or another qtype) x scales (ones, drawn, calibrated). Non-trivial: trees of depth >= 2 with an "
+        "(float, quantized with the same or another qtype) x scales (ones, drawn, calibrated) x batch rank 0-2 (a single vector included) x autograd "
+        "mode (no_grad, inference_mode, grad) x train/eval; LayerNorm with eps in {1e-5,1e-3,1e-1} and magnitudes down to 3e-3. Non-trivial: trees of depth >= 2 with an "
         "ineligible module and (a filter or a LayerNorm); module cases with a non-default hyper-parameter / input kind / batch rank."
     ),
     ASSUMPTIONS=[
@@ -283,7 +286,7 @@ CHECKS["C11"] = NS(
     TECHNIQUE=PBT + "differential oracle against autograd of a float64 straight-through reference graph; short update/forward histories for staleness",
     RULE=(
         "grad: kind x hyper-parameters x weight qtype x activation qtype x scale kind (incl. scales that make activations saturate) x rank x "
-        "layouts x frozen x input kind. stale: 2-6 steps from {forward, big/small/row in-place update, SGD step}. Non-trivial: input rank != 3, "
+        "layouts x frozen (by freeze(), by loading a frozen state_dict, by loading with assign=True) x input kind x train/eval mode. stale: 2-6 steps from {forward, big/small/row in-place update, SGD step}. Non-trivial: input rank != 3, "
         "or non-contiguous input/gradient, or Conv2d, or non-qint8 weights, or frozen; histories with an update followed by a forward."
     ),
     ASSUMPTIONS=["float32 modules only (float64 oracle)", "Linear inputs of rank >= 2 (1-D activations are outside the property's domain)"],
@@ -304,7 +307,8 @@ CHECKS["C12"] = NS(
     LEVEL_NOTE="float64 reference model with an explicitly propagated tolerance (8u per update, accumulation bound of the raw output / qmax); per-module pre-hooks only observe inputs",
     TECHNIQUE=PBT + "stateful generation of calibration histories against a reference model of the moving average",
     RULE=(
-        "Hypothesis histories: model x activation qtype x weight qtype x dtype x contexts[(momentum, streamline, batches[(magnitude, kind)])]. "
+        "Hypothesis histories: model x activation qtype x weight qtype x dtype x contexts[(momentum, streamline, debug, fresh or re-entered Calibration "
+        "object, batches[(magnitude, kind in normal / absmax==qmax / same batch again / same tensor object refilled in place)])]. "
         "Non-trivial: >= 2 batches whose magnitudes differ by > 2x under a momentum != 0.9, or a chained model with >= 2 batches, or >= 2 contexts. "
         "Distinct by the whole history."
     ),
